@@ -122,12 +122,22 @@ class ScriptedPort:
         text = raw.decode("ascii", "replace")
         body = text[:-1] if text.endswith("\r") else text
         clean = text.endswith("\r") and "\r" not in body and "\n" not in body
-        self.ops.append({"k": "w", "t": body, "clean": clean, "raised": raised, "kind": "", "vals": [], "s": ""})
+        f = body.split(",")
+        ints = []
+        for x in f[1:]:
+            try:
+                ints.append(int(x))
+            except ValueError:
+                pass
+        ints = [v for v in ints if abs(v) < 2 ** 31][:4]
+        self.ops.append({"k": "w", "t": body, "clean": clean, "raised": raised, "kind": "", "vals": [], "s": "",
+                         "n": f[0], "v": ints + [0, 0], "sarg": body[len(f[0]) + 1:]})
         return body
 
     def _log_r(self, kind, rep=None):
         rep = rep or {}
-        self.ops.append({"k": "r", "t": "", "clean": True, "raised": kind == "raise", "kind": kind, "vals": list(rep.get("vals", [])), "s": rep.get("s", "")})
+        self.ops.append({"k": "r", "t": "", "clean": True, "raised": kind == "raise", "kind": kind, "vals": list(rep.get("vals", [])), "s": rep.get("s", ""),
+                         "n": "", "v": [0, 0], "sarg": ""})
 
     def write(self, raw):
         text = raw.decode("ascii", "replace")
@@ -229,7 +239,9 @@ def enc_ret(m, val, last_reply_text):
     if val is None:
         return ["none"]
     if isinstance(val, int):
-        return ["int", val] if abs(val) < 2 ** 31 else ["other"]
+        if not -2 ** 31 <= val < 2 ** 31:
+            return ["other"]
+        return ["int", val >> 16, val & 0xFFFF]          # two halves: -2^31 and friends survive JSON -> TLC
     if isinstance(val, tuple) and len(val) == 2:
         if val == (None, None):
             return ["nonepair"]
@@ -356,6 +368,8 @@ def run_script(hist, dev, board, start_connected):
                 want_ret = obs["ret"]
                 if want_ret and want_ret[0] == "text":
                     want_ret = ["text_of_reply"]
+                if want_ret and want_ret[0] == "int":
+                    want_ret = ["int", want_ret[1] >> 16, want_ret[1] & 0xFFFF]
                 got_w = [o["t"] for o in rec["ops"] if o["k"] == "w" and not o["raised"]]
                 if got_w != list(obs["wr"]) or list(want_ret) != rec["ret"] or obs["errset"] != rec["err_set"] or obs["open"] != rec["port_open"]:
                     drift.append({"call": k + 1, "m": h["m"], "model": {"wr": list(obs["wr"]), "ret": list(want_ret), "errset": obs["errset"], "open": obs["open"]},
@@ -366,10 +380,9 @@ def run_script(hist, dev, board, start_connected):
 
 
 def scripts_from_dump(path, ncalls):
-    for st in vlib.read_dump(path, only={"hist", "pc", "dev", "board"}, prefilter='pc = "idle"'):
+    for st in vlib.read_dump(path, only={"hist", "pc", "dev"}, prefilter='pc = "idle"'):
         if len(st["hist"]) == ncalls:
-            b = st["board"]
-            yield st["hist"], st["dev"], {"nick": "Lab", "m1": False, "m2": False, "res": 1, "volt": 300}, st
+            yield st["hist"], st["dev"], dict(st["hist"][0]["b0"]), st
 
 
 def board_of_init(b):
@@ -406,7 +419,7 @@ def random_call(rng, alphabet):
     m = rng.choice(alphabet)
     R = rng.randint
     if m == "command":
-        return m, [], rng.choice(["SM,100,0,0", "EM,1,1", "SP,1,200", "TP", "CS", "S,5", "SC,4,%d" % R(1, 65535)])
+        return m, [], rng.choice(["SM,100,0,0", "XM,5,1,-1", "SP,1,200", "TP", "CS", "S,5", "SC,4,%d" % R(1, 65535)])
     if m == "query":
         return m, [], rng.choice(["QX", "V", "Q,1", "QX"])
     if m == "write_nickname":
